@@ -840,7 +840,21 @@ struct OptRefDriver : DriverBase<OptRefDriver<R>> {
     {
     }
 
-    void resync(int s) { bound[s] = obj[s]->has_value() ? static_cast<int>(&**obj[s] - target) : -1; }
+    // The model is re-read from the SUT by comparing addresses, never by pointer arithmetic on what the SUT holds: an
+    // optional that refers to none of the referents (only possible after a divergence that has been reported) is modelled
+    // as empty, so that what the harness does next does not depend on where the stack happens to be
+    void resync(int s)
+    {
+        bound[s] = -1;
+        if (obj[s]->has_value()) {
+            R const* p = obj[s]->operator->();
+            for (int i = 0; i < 4; ++i) {
+                if (p == &target[i]) {
+                    bound[s] = i;
+                }
+            }
+        }
+    }
 
     auto check_state(int s, char const* prop, char const* prefix) -> bool
     {
